@@ -137,8 +137,9 @@ def gen_quic_conn(R, cid, cfg, used, **epkw):
                 if A.chance(10):
                     pk["fixed0_never"] = 0
                 fl[d].append({"pk": [pk]})
-        if f >= 1 and A.chance(ku_pct) and len(sides) == 1:
-            fl["ku"] = sides[0]
+        if f >= 1 and A.chance(ku_pct):
+            # in a two-sided flight the other side still sends with the old keys while the update is in flight
+            fl["ku"] = A.choice(sides)
         if A.chance(cfg.get("cid_switch_pct", 30)):
             fl["cid_switch"] = {d: A.range(0, 3) for d in sides}
         script.append(fl)
